@@ -197,6 +197,8 @@ impl<T> Sender<T> {
     pub fn try_send(&self, msg: T) -> (r: Result<(), TrySendError<T>>)
         ensures match r { Ok(_) => self.sp_sent(msg), Err(TrySendError::Full(m)) => m == msg, Err(TrySendError::Disconnected(_)) => false }
     { unimplemented!() }
+    #[verifier::external_body]
+    pub fn len(&self) -> (r: usize) { unimplemented!() }
 }
 /// dashmap::mapref::multiple::RefMulti and dashmap::iter::Iter (ASSUMED): the iterator hands out references to bindings of the
 /// map; `sp_rem` shrinks with every item. Which bindings, how often and under which interleavings is dashmap's contract and
@@ -313,6 +315,27 @@ pub mod crossbeam_channel {
     pub fn bounded<T>(cap: usize) -> (super::Sender<T>, super::Receiver<T>) { unimplemented!() }
 }
 impl Default for Housekeeper { #[verifier::external_body] fn default() -> Self { unimplemented!() } }
+/// src/common/concurrent/housekeeper.rs
+pub trait InnerSync {
+    fn sync(&self, max_sync_repeats: usize);
+    fn now(&self) -> Instant;
+}
+/// sequential meaning checked on the real code by the Kani harnesses `housekeeper_*`; when maintenance runs is a schedule
+/// matter (C09 not applicable): no postcondition here
+impl Housekeeper {
+//@@ SIG file=src/common/concurrent/housekeeper.rs owner=Housekeeper name=should_apply_reads
+    #[verifier::external_body]
+    pub fn should_apply_reads(&self, ch_len: usize, now: Instant) -> bool { unimplemented!() }
+//@@ END
+//@@ SIG file=src/common/concurrent/housekeeper.rs owner=Housekeeper name=should_apply_writes
+    #[verifier::external_body]
+    pub fn should_apply_writes(&self, ch_len: usize, now: Instant) -> bool { unimplemented!() }
+//@@ END
+//@@ SIG file=src/common/concurrent/housekeeper.rs owner=Housekeeper name=try_sync
+    #[verifier::external_body]
+    pub fn try_sync<T: InnerSync>(&self, cache: &T) -> bool { unimplemented!() }
+//@@ END
+}
 /// std's default hasher state: opaque
 #[verifier::external_body]
 pub struct RandomState { x: u64 }
@@ -724,10 +747,6 @@ pub enum WriteOp<K, V> {
 }
 //@@ END
 //@@ CONST file=src/common/concurrent/constants.rs name=WRITE_RETRY_INTERVAL_MICROS
-pub trait InnerSync {
-    fn sync(&self, max_sync_repeats: usize);
-    fn now(&self) -> Instant;
-}
 impl<K, V, S> InnerSync for Inner<K, V, S> {
     #[verifier::external_body]
     fn sync(&self, max_sync_repeats: usize) { unimplemented!() }
@@ -759,9 +778,34 @@ impl<K, V, S> BaseCache<K, V, S> {
             WriteOp::Remove(_) => false,
         }
     }
-//@@ SIG file=src/sync/base_cache.rs owner=BaseCache name=apply_reads_writes_if_needed
-    #[verifier::external_body]
-    pub(crate) fn apply_reads_writes_if_needed(inner: &impl InnerSync, ch: &Sender<WriteOp<K, V>>, now: Instant, housekeeper: Option<&Arc<Housekeeper>>) { unimplemented!() }
+//@@ FN file=src/sync/base_cache.rs owner=BaseCache name=apply_reads_writes_if_needed tags=C08
+    pub(crate) fn apply_reads_writes_if_needed(
+        inner: &impl InnerSync,
+        ch: &Sender<WriteOp<K, V>>,
+        now: Instant,
+        housekeeper: Option<&Arc<Housekeeper>>,
+    ) {
+        let w_len = ch.len();
+
+        if let Some(hk) = housekeeper {
+            if hk.should_apply_writes(w_len, now) {
+                hk.try_sync(inner);
+            }
+        }
+    }
+//@@ END
+//@@ FN file=src/sync/base_cache.rs owner=BaseCache name=apply_reads_if_needed tags=C08
+    fn apply_reads_if_needed(&self, inner: &impl InnerSync, now: Instant) {
+        let len = self.read_op_ch.len();
+
+        if let Some(hk) = &self.housekeeper {
+            if hk.should_apply_reads(len, now) {
+                if let Some(h) = &self.housekeeper {
+                    h.try_sync(inner);
+                }
+            }
+        }
+    }
 //@@ END
 //@@ SIG file=src/sync/base_cache.rs owner=BaseCache name=current_time_from_expiration_clock
     #[verifier::external_body]
@@ -848,12 +892,26 @@ impl<K, V, S> BaseCache<K, V, S> {
     }
 //@@ END
 
-    /// queues the read record (crossbeam channel: outside). The recorded access time of a hit must be this call's reading (C06).
-    #[verifier::external_body]
-    fn record_read_op(&self, op: ReadOp<K, V>, now: Instant) -> (r: Result<(), TrySendError<ReadOp<K, V>>>)
+    /// queues the read record. The recorded access time of a hit must be this call's reading (C06); the record is handed to the
+    /// channel at most once (C14: a get is recorded at most once), a full channel drops it, and the call never fails.
+//@@ FN file=src/sync/base_cache.rs owner=BaseCache name=record_read_op tags=C06,C14
+    fn record_read_op(
+        &self,
+        op: ReadOp<K, V>,
+        now: Instant,
+    ) -> /*@+*/(r:/*@-*/ Result<(), TrySendError<ReadOp<K, V>>>/*@+*/)/*@-*/
         requires match op { ReadOp::Hit(_, _, ts) => ts == now, ReadOp::Miss(_) => true }, //@ [C06]
-        ensures r.is_ok(),
-    { unimplemented!() }
+        ensures r.is_ok(), //@ [C08,C14]
+    {
+        self.apply_reads_if_needed(self.inner.as_ref(), now);
+        let ch = &self.read_op_ch;
+        match ch.try_send(op) {
+            // Discard the ReadOp when the channel is full.
+            Ok(()) | Err(TrySendError::Full(_)) => Ok(()),
+            Err(e @ TrySendError::Disconnected(_)) => Err(e),
+        }
+    }
+//@@ END
 
 //@@ FN file=src/sync/base_cache.rs owner=BaseCache name=contains_key tags=C01,C15
     pub(crate) fn contains_key<Q>(&self, key: &Q) -> /*@+*/(r:/*@-*/ bool/*@+*/)/*@-*/
